@@ -13,3 +13,5 @@ G = rg_common.pairs()
 PAIRS += [G["queue_append"], G["free_block_delayed_mt"]]
 import page_common as _pc
 PAIRS += _pc.queue_pairs()      # queue surgery: a page moved between queues is in exactly one queue afterwards, neighbours stay linked
+import visit_common as _vc
+PAIRS += _vc.pairs()      # mi_heap_visit_pages reaches every page of every queue, including the full queue
